@@ -258,3 +258,112 @@ Qed.
 
 Theorem doc_sem_wf : forall p ds, doc_sem p = Ok ds -> wf_sem (ds_sem ds).
 Proof. intros p ds H. apply (doc_sem_block_wf p (p_main p) ds H). Qed.
+
+(** * (b) the documented laws, about [doc_sem] itself *)
+
+(** ** CrossBlock(d, c, cs, rcc) is MultiCrossBlock(d, [c], cs, rcc, WEIGHT) (EQUAL_PREAMBLE) *)
+Theorem cross_is_multi_weight : forall p d c cs rcc,
+  doc_sem_block p (PCross d c cs rcc) = doc_sem_block p (PMulti d [c] cs rcc DWeight EqualPreamble).
+Proof. reflexivity. Qed.
+
+(** ** MinimumTrials: the trial count is monotone in the bound and reaches it *)
+Definition round_up (su m : nat) : nat := if m mod su =? 0 then m else (m / su + 1) * su.
+
+Lemma round_up_mono : forall su m m', m <= m' -> round_up su m <= round_up su m'.
+Proof.
+  intros su m m' H. unfold round_up. destruct su as [|k].
+  - cbn. destruct m, m'; cbn; lia.
+  - pose proof (Nat.div_mod m (S k) ltac:(lia)) as E1. pose proof (Nat.div_mod m' (S k) ltac:(lia)) as E2.
+    pose proof (Nat.mod_upper_bound m (S k) ltac:(lia)) as B1. pose proof (Nat.mod_upper_bound m' (S k) ltac:(lia)) as B2.
+    pose proof (Nat.div_le_mono m m' (S k) ltac:(lia) H) as D.
+    remember (S k) as s eqn:Es. assert (Hs : 0 < s) by lia. clear Es k.
+    remember (m / s) as q eqn:Eq. remember (m' / s) as q' eqn:Eq'. remember (m mod s) as r eqn:Er. remember (m' mod s) as r' eqn:Er'.
+    clear Eq Eq' Er Er'.
+    destruct (Nat.eqb_spec r 0) as [Z1|Z1]; destruct (Nat.eqb_spec r' 0) as [Z2|Z2].
+    + exact H.
+    + assert ((q' + 1) * s = s * q' + s) by ring. lia.
+    + assert (q < q').
+      { destruct (Nat.lt_ge_cases q q') as [L|G]; [exact L|].
+        assert (s * q' <= s * q) by (apply Nat.mul_le_mono_l; lia). lia. }
+      assert (s * (q + 1) <= s * q') by (apply Nat.mul_le_mono_l; lia).
+      assert ((q + 1) * s = s * (q + 1)) by ring. lia.
+    + assert (s * q <= s * q') by (apply Nat.mul_le_mono_l; lia).
+      assert ((q + 1) * s = s * q + s) by ring. assert ((q' + 1) * s = s * q' + s) by ring. lia.
+Qed.
+
+Lemma round_fold_mono : forall cs m m', m <= m' ->
+  fold_left (fun m c => if m mod x_su c =? 0 then m else (m / x_su c + 1) * x_su c) cs m <=
+  fold_left (fun m c => if m mod x_su c =? 0 then m else (m / x_su c + 1) * x_su c) cs m'.
+Proof.
+  induction cs as [|c cs IH]; intros m m' H; cbn [fold_left]; [exact H|]. apply IH. apply (round_up_mono (x_su c) m m' H).
+Qed.
+
+Lemma round_fold_su1 : forall cs m, Forall (fun c => x_su c = 1) cs ->
+  fold_left (fun m c => if m mod x_su c =? 0 then m else (m / x_su c + 1) * x_su c) cs m = m.
+Proof.
+  induction cs as [|c cs IH]; intros m H; cbn [fold_left]; [reflexivity|]. inversion H; subst.
+  rewrite H2. rewrite Nat.mod_1_r. cbn. apply IH. assumption.
+Qed.
+
+Lemma finish_T_mono : forall al cs m m', m <= m' -> finish_T al cs m <= finish_T al cs m'.
+Proof. intros al cs m m' H. unfold finish_T. pose proof (round_fold_mono cs m m' H). lia. Qed.
+
+Lemma finish_T_ge_su1 : forall al cs m, Forall (fun c => x_su c = 1) cs -> m <= finish_T al cs m.
+Proof. intros al cs m H. unfold finish_T. rewrite (round_fold_su1 cs m H). lia. Qed.
+
+Lemma list_max_cons : forall n l, list_max (n :: l) = Nat.max n (list_max l).
+Proof. reflexivity. Qed.
+
+Lemma doc_crossing_su : forall p d ex rcc cr x, doc_crossing p d ex rcc cr = Ok x -> x_su x = 1.
+Proof.
+  intros p d ex rcc cr x H. unfold doc_crossing in H. inv_bind H as allc Ha H. inv_bind H as feas Hf H.
+  inv_bind H as P HP H. inversion H; subst. reflexivity.
+Qed.
+
+(** the trial count of a (Multi)CrossBlock as a function of its constraint list *)
+Lemma doc_cross_T : forall p d crs cs rcc mode al bd, doc_cross p d crs cs rcc mode al = Ok bd ->
+  exists xs, mapM (doc_crossing p (b_design bd) (excludes_of cs) rcc) (filter nonempty crs) = Ok xs /\
+             b_T bd = finish_T al xs (list_max (min_trials_of cs)).
+Proof.
+  intros p d crs cs rcc mode al bd H. unfold doc_cross in H.
+  inv_bind H as kinds Hk H. inv_bind H as xs Hxs H. inv_bind H as bd0 Hf H.
+  apply finish_T_eq in Hf. cbn in Hf. destruct Hf as [HT [_ [_ [Hd _]]]].
+  inversion H; subst; cbn. exists xs. rewrite Hd. split; assumption.
+Qed.
+
+Theorem minimum_trials_monotone : forall p d crs cs rcc mode al n n' bd bd',
+  n <= n' ->
+  doc_cross p d crs (PMinimumTrials n :: cs) rcc mode al = Ok bd ->
+  doc_cross p d crs (PMinimumTrials n' :: cs) rcc mode al = Ok bd' ->
+  n <= b_T bd /\ b_T bd <= b_T bd'.
+Proof.
+  intros p d crs cs rcc mode al n n' bd bd' Hn H H'.
+  assert (Hdes : b_design bd = b_design bd').
+  { unfold doc_cross in H, H'. inv_bind H as k1 Hk1 H. inv_bind H' as k2 Hk2 H'. rewrite Hk1 in Hk2. inversion Hk2; subst k2.
+    inv_bind H as x1 Hx1 H. inv_bind H as b1 Hb1 H. inv_bind H' as x2 Hx2 H'. inv_bind H' as b2 Hb2 H'.
+    apply finish_T_eq in Hb1, Hb2. cbn in Hb1, Hb2. inversion H; inversion H'; subst; cbn.
+    destruct Hb1 as [_ [_ [_ [-> _]]]]. destruct Hb2 as [_ [_ [_ [-> _]]]]. reflexivity. }
+  destruct (doc_cross_T _ _ _ _ _ _ _ _ H) as [xs [Hxs HT]].
+  destruct (doc_cross_T _ _ _ _ _ _ _ _ H') as [xs' [Hxs' HT']].
+  cbn [excludes_of flat_map app] in Hxs, Hxs'. rewrite <- Hdes in Hxs'. rewrite Hxs in Hxs'. inversion Hxs'; subst xs'.
+  cbn [min_trials_of flat_map app] in HT, HT'. rewrite list_max_cons in HT, HT'. rewrite HT, HT'.
+  assert (Hsu : Forall (fun c => x_su c = 1) xs).
+  { apply Forall_forall. intros x Hx. destruct (mapM_in _ _ _ _ Hxs Hx) as [cr [_ Hcr]]. eapply doc_crossing_su; eauto. }
+  split.
+  - pose proof (finish_T_ge_su1 al xs (Nat.max n (list_max (flat_map (fun c => match c with PMinimumTrials n0 => [n0] | _ => [] end) cs))) Hsu). lia.
+  - apply finish_T_mono. lia.
+Qed.
+
+(** the same for the programs themselves: [CrossBlock(d, c, MinimumTrials(n) :: cs, rcc)] *)
+Theorem minimum_trials_cross : forall p d c cs rcc n n' ds ds',
+  n <= n' ->
+  doc_sem_block p (PCross d c (PMinimumTrials n :: cs) rcc) = Ok ds ->
+  doc_sem_block p (PCross d c (PMinimumTrials n' :: cs) rcc) = Ok ds' ->
+  n <= s_trials (ds_sem ds) /\ s_trials (ds_sem ds) <= s_trials (ds_sem ds').
+Proof.
+  intros p d c cs rcc n n' ds ds' Hn H H'. unfold doc_sem_block in H, H'. cbn [doc_block] in H, H'.
+  inv_bind H as bd Hbd H. inv_bind H' as bd' Hbd' H'.
+  destruct (doc_cross_inv _ _ _ _ _ _ _ _ Hbd) as [HT Hsc]. destruct (doc_cross_inv _ _ _ _ _ _ _ _ Hbd') as [HT' Hsc'].
+  destruct (sem_of_block_wf _ _ _ HT Hsc H) as [_ [E1 [E2 _]]]. destruct (sem_of_block_wf _ _ _ HT' Hsc' H') as [_ [E1' [E2' _]]].
+  rewrite <- E1, <- E1', E2, E2'. eapply minimum_trials_monotone; eauto.
+Qed.
